@@ -338,3 +338,83 @@ func offsetParam(fn *ssa.Function) *ssa.Parameter {
 	}
 	return nil
 }
+
+// runHpackAllocs (C08.B4h): the HPACK decoder allocates for what has arrived, not for what was announced.
+// A string literal is preceded by its length; the bytes may follow in later CONTINUATION frames. Memory reserved by the
+// announced length lets a peer make the decoder allocate up to the string limit (1 MiB in MOSN's framers) with a header
+// block of a few bytes. Clause: in the decoder every explicit reservation - make with a non-constant size, append of a
+// made slice, (*bytes.Buffer).Grow - is sized by an expression over len()/cap() of received data and constants only; an
+// integer parameter or a decoded integer in the size is reported. (Write/append of received bytes grow by len(p) and are
+// not reservations.)
+func runHpackAllocs(c *Ctx, rule string) {
+	pkg := "pkg/module/http2/hpack"
+	n := 0
+	ord := ordCounter{}
+	var sizeOK func(v ssa.Value, d int) (bool, string)
+	sizeOK = func(v ssa.Value, d int) (bool, string) {
+		if d > 8 {
+			return false, "an expression too deep to follow"
+		}
+		switch x := v.(type) {
+		case *ssa.Const:
+			return true, ""
+		case *ssa.Convert:
+			return sizeOK(x.X, d+1)
+		case *ssa.ChangeType:
+			return sizeOK(x.X, d+1)
+		case *ssa.BinOp:
+			if ok, why := sizeOK(x.X, d+1); !ok {
+				return false, why
+			}
+			return sizeOK(x.Y, d+1)
+		case *ssa.Call:
+			if b, isB := x.Common().Value.(*ssa.Builtin); isB && (b.Name() == "len" || b.Name() == "cap") {
+				return true, ""
+			}
+			if m := methodName(x.Common()); m == "Len" || m == "Cap" {
+				return true, ""
+			}
+			return false, "the result of " + shortCallee(x.Common()) + "()"
+		case *ssa.Phi:
+			for _, e := range x.Edges {
+				if ok, why := sizeOK(e, d+1); !ok {
+					return false, why
+				}
+			}
+			return true, ""
+		case *ssa.Parameter:
+			return false, "the integer parameter " + x.Name() + " (an announced length)"
+		case *ssa.Extract:
+			return false, "a decoded integer"
+		}
+		return false, "a value the checker cannot trace to the received bytes"
+	}
+	for _, fn := range c.PkgFuncs(pkg) {
+		if fn.Signature.Recv() == nil || !strings.HasSuffix(typeName(fn.Signature.Recv().Type()), "hpack.Decoder") {
+			continue
+		}
+		forEachInstr(fn, false, func(f *ssa.Function, in ssa.Instruction) {
+			var size ssa.Value
+			what := ""
+			switch x := in.(type) {
+			case *ssa.MakeSlice:
+				if _, isK := x.Len.(*ssa.Const); !isK {
+					size, what = x.Len, "make"
+				} else if _, isK := x.Cap.(*ssa.Const); !isK {
+					size, what = x.Cap, "make"
+				}
+			case ssa.CallInstruction:
+				if strings.HasSuffix(calleeName(x.Common()), "bytes.Buffer).Grow") {
+					size, what = x.Common().Args[len(x.Common().Args)-1], "Buffer.Grow"
+				}
+			}
+			if size == nil {
+				return
+			}
+			n++
+			ok, why := sizeOK(size, 0)
+			c.Check(rule, ord.next(f, "reservation-by-received-bytes"), in.Pos(), ok, what+" sized by received data", "the HPACK decoder reserves memory ("+what+" in "+f.Name()+") sized by "+why+": a header block of a few bytes that announces a long string makes the decoder allocate up to the string limit before a single byte of it has arrived")
+		})
+	}
+	c.Pass(rule, pkg+":decoder-reservations", 0, fmt.Sprintf("%d explicit reservations in Decoder methods, each sized by received data", n))
+}
